@@ -78,27 +78,85 @@ func runSolver(ctx context.Context, sp solverSpec, file string, secs int) Solver
 	return SolverAnswer{Solver: sp.name, Result: res, Ms: ms, Output: txt}
 }
 
-// Solve races the solvers on one obligation.
+// Solve races the solvers on one obligation (part by part when the goal is a conjunction of
+// independent parts: one per return point / back edge).
 func Solve(o *Obligation, workDir string, secs int, all bool) OblResult {
+	if len(o.Parts) <= 1 || o.Cover {
+		return solveOne(o, o.Goal, "", workDir, secs, all)
+	}
+	res := make([]OblResult, len(o.Parts))
+	var wg sync.WaitGroup
+	for i, p := range o.Parts {
+		wg.Add(1)
+		go func(i int, p string) {
+			defer wg.Done()
+			res[i] = solveOne(o, p, fmt.Sprintf(".part%d", i+1), workDir, secs, all)
+		}(i, p)
+	}
+	wg.Wait()
+	agg := res[0]
+	for _, r := range res[1:] {
+		agg.All = append(agg.All, r.All...)
+		agg.Bytes += r.Bytes
+		if r.Winner.Ms > agg.Winner.Ms {
+			agg.Winner.Ms = r.Winner.Ms
+		}
+		if agg.Status == "discharged" && r.Status != "discharged" {
+			st := r
+			st.All = agg.All
+			agg = st
+		} else if agg.Status == "undischarged" && r.Status == "refuted" {
+			st := r
+			st.All = agg.All
+			agg = st
+		}
+	}
+	return agg
+}
+
+func solveOne(o *Obligation, goal, suffix, workDir string, secs int, all bool) OblResult {
 	if o.Unit.Timeout > secs && !o.Cover {
 		secs = o.Unit.Timeout
 	}
 	if o.Cover && secs > 3 {
 		secs = 3
 	}
-	script := o.Script(false)
-	file := filepath.Join(workDir, safeFile(o.Name)+".smt2")
+	script := o.scriptFor(false, false, goal)
+	file := filepath.Join(workDir, safeFile(o.Name)+suffix+".smt2")
 	os.MkdirAll(workDir, 0o755)
 	os.WriteFile(file, []byte(script), 0o644)
 	r := OblResult{O: o, File: file, Bytes: len(script), Asserts: strings.Count(script, "(assert ")}
 	ctx, cancel := context.WithCancel(context.Background())
 	defer cancel()
-	ch := make(chan SolverAnswer, len(solvers))
+	nruns := len(solvers)
+	ch := make(chan SolverAnswer, 3*len(solvers))
 	for _, sp := range solvers {
 		go func(sp solverSpec) { ch <- runSolver(ctx, sp, file, secs) }(sp)
 	}
+	if o.HasInstanceVariant() {
+		// second variant: quantified loop-invariant assumptions replaced by their instances at the
+		// goal's skolem constants (fewer assumptions: an unsat answer is equally valid)
+		for vi, tag := range []string{"", ".light", ".inst"} {
+			if vi == 0 {
+				continue
+			}
+			fileV := filepath.Join(workDir, safeFile(o.Name)+suffix+tag+".smt2")
+			os.WriteFile(fileV, []byte(o.scriptV(false, vi, goal)), 0o644)
+			nruns += len(solvers)
+			for _, sp := range solvers {
+				go func(sp solverSpec, fileV, tag string) {
+					a := runSolver(ctx, sp, fileV, secs)
+					if a.Result == "sat" {
+						a.Result = "unknown" // a model of a weaker variant refutes nothing
+					}
+					a.Solver += "/" + tag[1:]
+					ch <- a
+				}(sp, fileV, tag)
+			}
+		}
+	}
 	var definitive *SolverAnswer
-	for i := 0; i < len(solvers); i++ {
+	for i := 0; i < nruns; i++ {
 		a := <-ch
 		r.All = append(r.All, a)
 		if (a.Result == "sat" || a.Result == "unsat") && definitive == nil {
@@ -130,8 +188,8 @@ func Solve(o *Obligation, workDir string, secs int, all bool) OblResult {
 	default:
 		r.Status = "refuted"
 		// fetch a model from the winning solver
-		mf := filepath.Join(workDir, safeFile(o.Name)+".model.smt2")
-		os.WriteFile(mf, []byte(o.Script(true)), 0o644)
+		mf := filepath.Join(workDir, safeFile(o.Name)+suffix+".model.smt2")
+		os.WriteFile(mf, []byte(o.scriptFor(true, false, goal)), 0o644)
 		for _, sp := range solvers {
 			if sp.name == definitive.Solver {
 				argv := sp.argv(mf, secs)
